@@ -214,3 +214,18 @@ Definition interp_gen (fx : bool) (m : method) (n0 n1 off : Z)
 
 Definition interp := interp_gen true.          (* the tree under test *)
 Definition interp_before := interp_gen false.  (* the code as found *)
+
+(* interpolated_disparity(left) on a dataset: disparity_map and validity_mask are replaced,
+   everything else (bands, interval, offset) is kept *)
+Definition interp_ds (m : method) (d : dataset) : dataset :=
+  let dk := interp m (ds_nr d) (ds_nc d) (ds_offset d) (ds_disp d) (ds_mask d) in
+  mkDS (ds_nr d) (ds_nc d) (fst dk) (snd dk) (ds_bands d) (ds_dmin d) (ds_dmax d) (ds_offset d).
+
+(* PandoraMachine.validation_run (state_machine.py:474-481) with cross_checking_accurate and
+   interpolated_disparity: left checked against right, right against the checked left, then
+   the interpolation of the left and of the right dataset (call structure re-checked against
+   Gen/Callbacks.v in Props/C14.v) *)
+Definition validation_interp_run (thr : Q) (m : method) (L R : dataset) : dataset * dataset :=
+  let L' := xcheck thr L R in
+  let R' := xcheck thr R L' in
+  (interp_ds m L', interp_ds m R').
